@@ -1,10 +1,13 @@
-(* Model of the session gate of internal/servers/hls (http_server.go onRequest, muxer.go findSession / addSession /
-   apiSessionsKick / session cleanup / run, server.go getMuxer / PathReady / PathNotReady, session.go initialize).
+(* Model of the session gate of internal/servers/hls (http_server.go initialize / onRequest, muxer.go findSession /
+   addSession / apiSessionsKick / session cleanup / run, server.go getMuxer / PathReady / PathNotReady, session.go
+   initialize) and of the way the gin engine set up by httpServer.initialize derives "the IP of the request"
+   (gin v1.12.0 Context.ClientIP, Engine.validateHeader, Engine.isTrustedProxy).
    Executable; no proofs here.
 
-   Paths, credentials and client IPs are tokens in Z (the driver maps them to path names, user:pass pairs and IP
-   strings). Strings that the code inspects byte-wise (the Authorization header, the raw secret taken from the cookie
-   or the query) are lists of byte values. A session secret is the 16 bytes of a google/uuid UUID. *)
+   Paths and credentials are tokens in Z (the driver maps them to path names and user:pass pairs). Strings that the
+   code inspects byte-wise (the Authorization header, the raw secret taken from the cookie or the query, the
+   forwarding headers, the textual client IP kept in session.ip) are lists of byte values. A session secret is the
+   16 bytes of a google/uuid UUID. *)
 From Coq Require Import List ZArith Bool.
 Import ListNotations.
 Local Open Scope Z_scope.
@@ -69,16 +72,127 @@ Definition uuid_parse (s : list Z) : option uuid :=
   else if n =? 32 then hex_at s offs32
   else None.
 
+(* ---------------------------------------------------------------- the IP of a request (gin) ------------------- *)
+
+(* net.IP as IPNet.Contains looks at it: (has a 4-byte form (To4() != nil), the 4 or 16 bytes as a big-endian number) *)
+Definition addr := (bool * Z)%type.
+
+(* one entry of hlsTrustedProxies (conf.IPNetwork), i.e. after ToTrustedProxies / gin prepareTrustedCIDRs one *net.IPNet *)
+Record cidr := { c_v4 : bool; c_base : Z; c_ones : Z }.
+
+(* net.IPNet.Contains: same address family, equal under the mask *)
+Definition cidr_contains (n : cidr) (a : addr) : bool :=
+  let w := if c_v4 n then 32 else 128 in
+  Bool.eqb (c_v4 n) (fst a) && (Z.shiftr (snd a) (w - c_ones n) =? Z.shiftr (c_base n) (w - c_ones n)).
+
+(* the fields of gin.Engine that Context.ClientIP reads *)
+Record engine := {
+  e_trusted : list cidr;            (* trustedCIDRs *)
+  e_forwarded : bool;               (* ForwardedByClientIP *)
+  e_headers : list Z;               (* RemoteIPHeaders (header identities, below) *)
+  e_platform : option Z;            (* TrustedPlatform (a header identity), None = "" *)
+}.
+
+(* header identities: 0 X-Forwarded-For, 1 X-Real-Ip, 2 CF-Connecting-IP, 3 X-Appengine-Remote-Addr, 4 Fly-Client-IP,
+   5 True-Client-IP, 6 X-Client-IP, 7 Forwarded *)
+Definition h_xff : Z := 0.
+Definition h_xreal : Z := 1.
+
+(* Engine.isTrustedProxy *)
+Definition is_trusted (l : list cidr) (a : addr) : bool := existsb (fun n => cidr_contains n a) l.
+
+(* what a request looks like to ClientIP:
+   n_peer  ORACLE net.SplitHostPort(TrimSpace(Request.RemoteAddr)) + net.ParseIP: the IP of the TCP peer as
+           (IP.String(), address), None if RemoteAddr does not hold an IP
+   n_hdrs  for every header identity the request carries: strings.Join(Header.Values(name), ",") *)
+Record netreq := { n_peer : option (list Z * addr); n_hdrs : list (Z * list Z) }.
+
+Definition hdr_val (n : netreq) (h : Z) : list Z :=
+  match find (fun e => fst e =? h) (n_hdrs n) with Some e => snd e | None => [] end.
+
+(* strings.Split(s, ",") *)
+Fixpoint split_comma (s : list Z) : list (list Z) :=
+  match s with
+  | [] => [[]]
+  | c :: r =>
+      if c =? 44 then [] :: split_comma r
+      else match split_comma r with h :: t => (c :: h) :: t | [] => [[c]] end
+  end.
+
+(* strings.TrimSpace on ASCII input (space, \t \n \v \f \r) *)
+Definition is_space (c : Z) : bool := (c =? 32) || ((9 <=? c) && (c <=? 13)).
+Fixpoint trim_left (s : list Z) : list Z :=
+  match s with c :: r => if is_space c then trim_left r else s | [] => [] end.
+Definition trim (s : list Z) : list Z := rev (trim_left (rev (trim_left s))).
+
+Definition items (v : list Z) : list (list Z) := map trim (split_comma v).
+
+(* Engine.validateHeader, the loop `for i := len(items)-1; i >= 0; i--` over the items in reverse order: an item that is
+   not an IP ends the search; the first item (from the right) that is not a trusted proxy, or the leftmost item
+   whatever it is, is the client *)
+Fixpoint validate_rev (parse : list Z -> option addr) (tr : list cidr) (its : list (list Z)) : option (list Z) :=
+  match its with
+  | [] => None
+  | it :: rest =>
+      match parse it with
+      | None => None
+      | Some a =>
+          if (match rest with [] => true | _ :: _ => false end) || negb (is_trusted tr a) then Some it
+          else validate_rev parse tr rest
+      end
+  end.
+
+Definition validate_header (parse : list Z -> option addr) (tr : list cidr) (v : list Z) : option (list Z) :=
+  match v with [] => None | _ :: _ => validate_rev parse tr (rev (items v)) end.
+
+Fixpoint first_valid (parse : list Z -> option addr) (tr : list cidr) (n : netreq) (hs : list Z) : option (list Z) :=
+  match hs with
+  | [] => None
+  | h :: r =>
+      match validate_header parse tr (hdr_val n h) with
+      | Some ip => Some ip
+      | None => first_valid parse tr n r
+      end
+  end.
+
+(* Context.ClientIP (AppEngine flag off, not listening on a unix socket). parse = net.ParseIP (ORACLE) *)
+Definition client_ip (e : engine) (parse : list Z -> option addr) (n : netreq) : list Z :=
+  match (match e_platform e with Some h => hdr_val n h | None => [] end) with
+  | (_ :: _) as v => v
+  | [] =>
+      match n_peer n with
+      | None => []
+      | Some (txt, a) =>
+          if is_trusted (e_trusted e) a && e_forwarded e then
+            match first_valid parse (e_trusted e) n (e_headers e) with Some ip => ip | None => txt end
+          else txt
+      end
+  end.
+
+Definition peer_text (n : netreq) : list Z := match n_peer n with Some (txt, _) => txt | None => [] end.
+
 (* ---------------------------------------------------------------- server state --------------------------------- *)
 
 Record config := {
   always : bool;                    (* Server.AlwaysRemux *)
   cdn_secret : list Z;              (* Server.CDNSecret *)
-  auth : Z -> Z -> Z -> bool;       (* oracle: the path manager admits (path, credentials, client IP) as a reader *)
+  auth : Z -> Z -> list Z -> bool;  (* oracle: the path manager admits (path, credentials, net.ParseIP(ctx.ClientIP()))
+                                       as a reader *)
   nostream : Z -> bool;             (* oracle: the path manager answers PathNoStreamAvailableError for this path *)
+  trusted : list cidr;              (* Server.TrustedProxies (hlsTrustedProxies) *)
+  parse_ip : list Z -> option addr; (* oracle: net.ParseIP *)
 }.
 
-Record session := { s_id : Z; s_secret : uuid; s_ip : Z }.
+(* httpServer.initialize: gin.New() (ForwardedByClientIP = true, RemoteIPHeaders = X-Forwarded-For, X-Real-IP, no
+   TrustedPlatform) followed by router.SetTrustedProxies(trustedProxies.ToTrustedProxies()) UNCONDITIONALLY: an empty
+   list replaces gin's built-in default (trust 0.0.0.0/0 and ::/0) by "trust nobody" *)
+Definition hls_engine (c : config) : engine :=
+  {| e_trusted := trusted c; e_forwarded := true; e_headers := [h_xff; h_xreal]; e_platform := None |}.
+
+(* ctx.ClientIP() of a request served by that engine *)
+Definition cip (c : config) (n : netreq) : list Z := client_ip (hls_engine c) (parse_ip c) n.
+
+Record session := { s_id : Z; s_secret : uuid; s_ip : list Z (* session.ip: ClientIP() of the creating request *) }.
 
 Record muxer := {
   m_auto : bool;                    (* created by "always remux" (remoteAddr == "") *)
@@ -105,10 +219,11 @@ Definition map_vals (f : muxer -> muxer) (l : list (Z * muxer)) : list (Z * muxe
 (* ---------------------------------------------------------------- requests ------------------------------------- *)
 
 Inductive op :=
-| Multi (p cred ip : Z) (hdr : list Z) (ccq ccc : bool) (sec : uuid)
-    (* GET <p>/index.m3u8 ; hdr = first Authorization header ; ccq: the query has cookieCheck=1 ; ccc: the request has
-       the cookie cookieCheck=1 ; sec: the value uuid.New() returns for the secret if a session is created *)
-| Media (p ip : Z) (hdr : list Z) (cookie : option (list Z)) (query : list Z)
+| Multi (p cred : Z) (n : netreq) (hdr : list Z) (ccq ccc : bool) (sec : uuid)
+    (* GET <p>/index.m3u8 ; n = TCP peer and forwarding headers ; hdr = first Authorization header ; ccq: the query has
+       cookieCheck=1 ; ccc: the request has the cookie cookieCheck=1 ; sec: the value uuid.New() returns for the secret
+       if a session is created *)
+| Media (p : Z) (n : netreq) (hdr : list Z) (cookie : option (list Z)) (query : list Z)
     (* GET <p>/<media playlist or segment> ; cookie = Request.Cookie("hlsSession") if present ;
        query = URL.Query().Get("session") *)
 | Kick (id : Z)                    (* APISessionsKick of the session with that identity *)
@@ -158,7 +273,7 @@ Definition find_session (u : uuid) (l : list session) : option session :=
   find (fun s => bytes_eqb (s_secret s) u) l.
 
 (* muxer.findSession + the surrounding branch of onRequest *)
-Definition media_out (c : config) (st : state) (p ip : Z) (hdr : list Z) (cookie : option (list Z)) (query : list Z) : out :=
+Definition media_out (c : config) (st : state) (p : Z) (ip : list Z) (hdr : list Z) (cookie : option (list Z)) (query : list Z) : out :=
   match lookup p (muxers st) with
   | None => OUnauth
   | Some m =>
@@ -174,7 +289,7 @@ Definition media_out (c : config) (st : state) (p ip : Z) (hdr : list Z) (cookie
         | Some u =>
             match find_session u (m_sess m) with
             | None => OUnauth
-            | Some s => if s_ip s =? ip then (if m_inst m then OPass else OErr) else OUnauth
+            | Some s => if bytes_eqb (s_ip s) ip then (if m_inst m then OPass else OErr) else OUnauth
             end
         end
   end.
@@ -196,7 +311,8 @@ Definition drop_ids (ids : list Z) (m : muxer) : muxer :=
 
 Definition step (c : config) (st : state) (o : op) : state * out :=
   match o with
-  | Multi p cred ip hdr ccq ccc sec =>
+  | Multi p cred n hdr ccq ccc sec =>
+      let ip := cip c n in
       if is_cdn c hdr then
         let create :=
           if nostream c p then (st, ONotFound)
@@ -214,7 +330,7 @@ Definition step (c : config) (st : state) (o : op) : state * out :=
       else if nostream c p then (st, ONotFound)
       else attach c st p (fun m => add_session m {| s_id := next_id st; s_secret := sec; s_ip := ip |})
                   (OCreated ccc (next_id st))
-  | Media p ip hdr cookie query => (st, media_out c st p ip hdr cookie query)
+  | Media p n hdr cookie query => (st, media_out c st p (cip c n) hdr cookie query)
   | Kick id =>
       ({| muxers := map_vals (drop_id id) (muxers st); next_id := next_id st |},
        OKicked (existsb (fun e => has_id id (snd e)) (muxers st)))
@@ -282,18 +398,38 @@ Definition effective (cookie : option (list Z)) (query : list Z) : list Z :=
 
 (* ---------------------------------------------------------------- specification vocabulary --------------------- *)
 
-(* In the trace tr there is an admitted, non-CDN multivariant request on path p from client IP ip that went through
-   the cookie check and created the session `id` with secret u, and nothing after it in tr ended that session. *)
-Definition backed (c : config) (tr : list (op * out)) (p id : Z) (u : uuid) (ip : Z) : Prop :=
-  exists pre mid cred hdr ccc vc,
-    tr = pre ++ (Multi p cred ip hdr true ccc u, OCreated vc id) :: mid /\
+(* In the trace tr there is an admitted, non-CDN multivariant request on path p whose client IP (cip: the TCP peer,
+   or what a TRUSTED proxy reported) is ip, that went through the cookie check and created the session `id` with
+   secret u, and nothing after it in tr ended that session. *)
+Definition backed (c : config) (tr : list (op * out)) (p id : Z) (u : uuid) (ip : list Z) : Prop :=
+  exists pre mid cred n hdr ccc vc,
+    tr = pre ++ (Multi p cred n hdr true ccc u, OCreated vc id) :: mid /\
+    cip c n = ip /\
     is_cdn c hdr = false /\ auth c p cred ip = true /\
     Forall (fun e => kills p id e = false) mid.
 
 (* In the trace tr a multivariant request on path p carrying the CDN secret created the CDN session `id`, and nothing
    after it in tr ended that session. *)
 Definition cdn_backed (c : config) (tr : list (op * out)) (p id : Z) : Prop :=
-  exists pre mid cred ip hdr ccq ccc sec,
-    tr = pre ++ (Multi p cred ip hdr ccq ccc sec, OCdnCreated id) :: mid /\
+  exists pre mid cred n hdr ccq ccc sec,
+    tr = pre ++ (Multi p cred n hdr ccq ccc sec, OCdnCreated id) :: mid /\
     is_cdn c hdr = true /\
     Forall (fun e => kills p id e = false) mid.
+
+(* ---------------------------------------------------------------- honest proxies (specification vocabulary) ----- *)
+
+(* the TCP peer of the request is outside every trusted network (always the case with the default empty list) *)
+Definition untrusted_peer (c : config) (n : netreq) : Prop :=
+  match n_peer n with Some (_, a) => is_trusted (trusted c) a = false | None => True end.
+
+(* what a forwarding proxy does to X-Forwarded-For (nginx $proxy_add_x_forwarded_for, haproxy forwardfor, ...): append
+   the IP of ITS peer to whatever it received *)
+Definition proxy_append (x t : list Z) : list Z := match x with [] => t | _ :: _ => x ++ [44; 32] ++ t end.
+
+(* X-Forwarded-For as it arrives after the client sent x0 (anything, also nothing) and the request went through
+   proxies that saw the peers ts (the first of them is the client itself) *)
+Definition chain_xff (x0 : list Z) (ts : list (list Z)) : list Z := fold_left proxy_append ts x0.
+
+(* a textual IP as proxies write it: not empty, no comma, no white space *)
+Definition clean (t : list Z) : bool :=
+  negb (match t with [] => true | _ :: _ => false end) && forallb (fun c => negb (c =? 44) && negb (is_space c)) t.
